@@ -18,7 +18,7 @@ from vfacts import strip, walk, method_name, root_path, known_facts, is_node, ch
 from .prov import var_table, local_sources
 
 RULE = 'PRODUCT'
-FLOOR = 40
+FLOOR = 25
 CORES = ('ExplicitTreeAutCore', 'ExplicitFiniteAutCore', 'BDDBUTreeAutCore', 'BDDTDTreeAutCore')
 ANCHORS = ['%s::Intersection' % c for c in CORES] + ['ExplicitTreeAutCore::IntersectionBU']
 PAIR_T = 'std::pair<unsigned long, unsigned long>'
